@@ -56,6 +56,14 @@ func runSearch(a map[string]string) {
 		return groupsig.VerifySig(groupsig.ByteToPublicKey(pkb), msg, *groupsig.DeserializeSign(sigb))
 	}
 
+	// sampled number-theoretic assumptions of Props/C14W, C14U: p and the group order are prime
+	evals += 2
+	if !bigP.ProbablyPrime(32) {
+		emit(viol{"field-modulus-not-prime", "bn256.P fails Miller-Rabin", map[string]string{"P": bigP.String()}})
+	}
+	if !bigR.ProbablyPrime(32) {
+		emit(viol{"group-order-not-prime", "bn256.Order fails Miller-Rabin", map[string]string{"Order": bigR.String()}})
+	}
 	for i := 0; i < n; i++ {
 		sk := g.sk()
 		msg := g.msg()
